@@ -172,6 +172,8 @@ def ba_tobytes(it, ba):
     if len(ba.segs) == 1 and ba.segs[0].kind == 'b':
         return ba.segs[0].val
     nbytes = (len(ba) + 7) // 8
+    if len(ba) % 8:
+        ba = padded(ba)                # canonical form: the zero bits tobytes() adds are part of the described content
     return Term('tobytes', K(nbytes), K(ba.desc()), BAref(ba.copy()))
 
 
@@ -183,6 +185,8 @@ def tobytes_term(ba):
         return K(bytes(int(pat[i:i + 8], 2) for i in range(0, len(pat), 8)))
     if len(ba.segs) == 1 and ba.segs[0].kind == 'b' and ba.segs[0].val is not None:
         return ba.segs[0].val          # the bits are exactly the bits of this byte string: its bytes are that byte string
+    if len(ba) % 8:
+        ba = padded(ba)                # canonical form: the zero bits tobytes() adds are part of the described content
     return Term('tobytes', K((len(ba) + 7) // 8), K(ba.desc()), BAref(ba.copy()))
 
 
@@ -2073,6 +2077,10 @@ def builtin(it, name, args, kw, n):
         r = hook(name, args, kw, n)
         if r is not None:
             return r
+    if name in ('min', 'max', 'sum', 'sorted', 'list', 'tuple', 'set', 'frozenset', 'dict', 'bytes', 'bytearray') and args and isinstance(args[0], IterV):
+        # these consume their argument completely: an iterator object is drained once, here (a model that looked at it twice would find
+        # it empty the second time)
+        args = [ListV(list(it.pull_iter(args[0], n)))] + list(args[1:])
     if name == 'isinstance':
         return do_isinstance(it, args[0], args[1], n)
     if name == 'object' and not args and not kw:
@@ -2134,6 +2142,17 @@ def builtin(it, name, args, kw, n):
                     return ListV(sorted(items, key=lambda x: x.v, reverse=bool(rev is not None and it.truth(rev))))
                 if len(items) <= 1:
                     return ListV(items)
+                try:
+                    consts = [to_const(x) for x in items]
+                except NotConst:
+                    consts = None
+                if consts is not None:
+                    rev = kw.get('reverse')
+                    try:
+                        order = sorted(range(len(items)), key=lambda i: consts[i], reverse=bool(rev is not None and it.truth(rev)))
+                    except TypeError as e:
+                        raise RaiseEx('TypeError', str(e)[:60])
+                    return ListV([items[i] for i in order])
                 return Term('sorted', ListV(items))
             if name == 'reversed':
                 return ListV(list(reversed(items)))
